@@ -192,6 +192,9 @@ func runSteps(m *mon.M, c *Case, x *exec) {
 		view := &Case{Registry: append([]string(nil), st.keys...), DefaultMT: st.def, RtCtx: st.ctxKind, TCP: c.TCP, Debug: c.Debug, BasePath: c.BasePath, Adapter: c.Adapter, KeepAlive: c.KeepAlive, Entry: c.Entry}
 		w := expectFor(view, &eff)
 		m.Class("steps:" + orNone(jx.history))
+		if strings.Contains(w.feature, "/default-spelled-") {
+			m.Class("steps-default:" + w.feature)
+		}
 		if jx.regHist != "" {
 			m.Class("steps-registry:" + jx.regHist)
 		}
@@ -289,6 +292,9 @@ func genSteps(r *rand.Rand, tcp bool) *Case {
 						}
 					default:
 						sp.SetDefault = pick(r, append([]string{"application/x-late"}, typePool...))
+					if r.Intn(3) == 0 {
+						sp.SetDefault = spellDefault(r, sp.SetDefault)
+					}
 						md.def = sp.SetDefault
 						absent = true
 					}
@@ -308,6 +314,8 @@ func genSteps(r *rand.Rand, tcp bool) *Case {
 			}
 		} else if absent && r.Intn(4) != 0 {
 			call.HasCT, call.CT = false, ""
+		} else {
+			absentForSpelledDefault(r, md.def, tcp, &call)
 		}
 		// dead operation contexts teach nothing about sequences: keep most operations alive
 		if dead(call.OpCtx) && r.Intn(3) != 0 {
